@@ -101,6 +101,27 @@ theorem base_file_io_methods_locked :
           | .unknown _ => false)) ||
       e.shape == .singleLocked || ["hash"].contains e.method) = true := by decide +kernel
 
+/-- does class `c` run method `m` as a block locked with the lock of the object itself? -/
+def ownLocked (c m : String) : Bool :=
+  match resolve lockTable lockBases 8 c m with
+  | some e => e.body.lockSeq.contains "self"
+  | none => false
+
+/-- TABLE THEOREM: a `SubFS` / `WrapFS` view hands EVERY public method of `fs/base.py` to the wrapped
+filesystem (whose lock then covers it, or — `copy`, `copydir` since c0d11e1 — takes the wrapped
+filesystems' locks itself); none takes the private lock of the view, which no sibling view and not the
+parent ever take (`writetext` did until `/repo` 3400efe gave `WrapFS` the delegating override).
+Deleting an override of `WrapFS` (so that a compound default such as `FS.create` runs under the view's
+own lock) breaks this proof. -/
+theorem view_never_uses_its_own_lock :
+    ∀ c ∈ ["WrapFS", "SubFS", "ClosingSubFS"],
+      ((lockTable.filter fun e => e.cls == "FS").all fun e =>
+        ["lock", "close", "__exit__", "__del__"].contains e.method || !ownLocked c e.method) = true := by
+  decide +kernel
+
+/-- non-vacuity: the base class itself does take its own lock in these methods -/
+example : ownLocked "MemoryFS" "writetext" = true ∧ ownLocked "MemoryFS" "create" = true := by decide +kernel
+
 /-- the method behind every constructor of `Ref.Op` -/
 def opMethods : List String :=
   ["exists", "isdir", "isfile", "listdir", "getsize", "gettype", "isempty", "getinfo", "readbytes",
@@ -212,11 +233,15 @@ theorem no_deadlock :
     (lockTable.all fun e => [[], ["self"], ["fs"], ["src_fs", "dst_fs"]].contains e.body.lockSeq) = true := by
   decide +kernel
 
-/-- no method of a filesystem class takes a second filesystem's lock itself -/
+/-- no method of a filesystem class takes a second filesystem's lock itself — except the wrapper's
+`copy` / `copydir`, which hold no lock of their own and take the wrapped filesystems' locks in the
+library-wide order `src_fs`, `dst_fs` (the order `no_deadlock` allows) around their check-then-copy -/
 theorem methods_take_only_their_own_lock :
     (lockTable.all fun e =>
       !["FS", "MemoryFS", "MountFS", "MultiFS", "WrapFS", "SubFS", "ClosingSubFS", "OSFS"].contains e.cls ||
-      [[], ["self"]].contains e.body.lockSeq) = true := by decide +kernel
+      [[], ["self"]].contains e.body.lockSeq ||
+      (e.cls == "WrapFS" && ["copy", "copydir"].contains e.method && e.body.lockSeq == ["src_fs", "dst_fs"])) = true := by
+  decide +kernel
 
 /-- no lock is acquired in a loop or in syntax the extractor does not understand, except the
 callback-taking `FS.filterdir` (no lock inside) -/
